@@ -44,3 +44,19 @@ var VerifConsts = struct {
 	DecWatermark:           _3k3yDecWatermark[:], EncWatermark: _3k3yEncWatermark[:],
 	SfoMagic:               sfoMagic[:],
 }
+
+// VerifVisoFile describes one file of a generated image as read() sees it.
+type VerifVisoFile struct {
+	Path string
+	Size int64
+	RLBA int64
+}
+
+// VerifVisoInternals exposes the structures VirtualISO.read works on (read-only copy).
+func VerifVisoInternals(v *VirtualISO) (fsBuf []byte, files []VerifVisoFile, padStart, padSize, total int64) {
+	fsBuf = append([]byte(nil), v.fsBuf...)
+	for _, f := range v.files {
+		files = append(files, VerifVisoFile{Path: f.path, Size: int64(f.size), RLBA: int64(f.rLBA)})
+	}
+	return fsBuf, files, int64(v.padAreaStart), int64(v.padAreaSize), int64(v.totalSize)
+}
